@@ -139,8 +139,14 @@ Handled == \/ Ev.e \in {"reset", "call", "ret", "hang", "panic", "junk"}
            \/ (Ev.e = "rx" /\ Ev.cmd # "Ack" /\ "hs" \in DOMAIN Ev /\ Ev.hs = FALSE /\ pcall.op # "")
            \/ IsReply \/ IsAck
 \* connection churn inside a call (a reconnect after a failure) takes the rest of the scenario out of the fault-free quantifier
+\* ... but a client that drops its connection in the middle of a call although the terminal did nothing to it (no injected fault, no
+\* refused or stalling connect, no late reply, no exchange the client itself left unfinished) is not fault-free behaviour: abnormal
+Provoked == \/ Ev.e \in {"fault", "connect_stall", "connect_refused", "abandoned"}
+            \/ (Ev.e = "tx" /\ "after_ms" \in DOMAIN Ev)
 TSkip == /\ ~Handled
-         /\ clean' = (clean /\ ~(Ev.e \in {"open", "fault", "connect_stall", "connect_refused"} \/ (Ev.e = "close" /\ pcall.op # "")))
+         /\ (IF Ev.e = "close" /\ pcall.op # "" /\ clean THEN PrintT(<<"PFLAG", sc, l, ToJson({"abnormal-connection-dropped-without-cause"})>>) ELSE TRUE)
+         /\ clean' = (clean /\ ~(Ev.e \in {"open", "fault", "connect_stall", "connect_refused", "abandoned"} \/ (Ev.e = "tx" /\ "after_ms" \in DOMAIN Ev)
+                                 \/ (Ev.e = "close" /\ pcall.op # "")))
          /\ UNCHANGED <<cfg, sc, c, sync, cur, exs, pcall, open, hist>>
 
 TNext == l <= Len(Trc) /\ l' = l + 1 /\ (TReset \/ TCall \/ TRequest \/ TReply \/ TAck \/ TReturn \/ TAbnormal \/ TJunk \/ TSkip)
